@@ -480,8 +480,11 @@ func (w *world) sessionExtra(i int) string {
 	ref := w.model[i].Snapshot()
 	_, _, vars := server.VerifSessionState(w.ses[i])
 	var extra []string
-	for k := range vars {
+	for k, v := range vars {
 		if strings.HasPrefix(k, "@") {
+			if strings.EqualFold(v, "null") {
+				continue // '@u = NULL' is the absence of @u
+			}
 			if _, ok := ref.UserVars[k[1:]]; !ok {
 				extra = append(extra, "uservar:"+k[1:])
 			}
